@@ -72,13 +72,13 @@ theorem postRestoreReq_keys (outs : List Output) : (postRestoreReq outs).body.ke
 
 /-! ## what is put into the request literals (wallet/wallet.go, wallet/restore.go) -/
 
-/-- `swap()` passes the payload's inputs, `swapToSend` the selected stored proofs — AS THEY ARE (F5): `Model.swap`, `Model.swapToSend` -/
+/-- `swap()` and `swapToSend` send DLEQ-less COPIES of the payload's inputs / the selected stored proofs (fix of F5): `Model.swap`, `Model.swapToSend` -/
 theorem wlit_PostSwapRequest : Gen.wlit_PostSwapRequest =
-    [("swap", ["Inputs:swapRequest.inputs", "Outputs:swapRequest.outputs"]), ("swapToSend", ["Inputs:proofsToSwap", "Outputs:blindedMessages"])] := rfl
+    [("swap", ["Inputs:inputsWithoutDLEQ(swapRequest.inputs)", "Outputs:swapRequest.outputs"]), ("swapToSend", ["Inputs:inputsWithoutDLEQ(proofsToSwap)", "Outputs:blindedMessages"])] := rfl
 
-/-- `Melt` passes the proofs of getProofsForAmount and the blank outputs, `swapProofs` its argument and no outputs — AS THEY ARE (F5): `Model.melt`, `Model.swapProofs` -/
+/-- `Melt` sends DLEQ-less copies of the proofs of getProofsForAmount and the blank outputs, `swapProofs` copies of its argument and no outputs (fix of F5): `Model.melt`, `Model.swapProofs` -/
 theorem wlit_PostMeltBolt11Request : Gen.wlit_PostMeltBolt11Request =
-    [("Melt", ["Quote:quote.QuoteId", "Inputs:proofs", "Outputs:outputs"]), ("swapProofs", ["Quote:meltQuoteResponse.Quote", "Inputs:proofs"])] := rfl
+    [("Melt", ["Quote:quote.QuoteId", "Inputs:inputsWithoutDLEQ(proofs)", "Outputs:outputs"]), ("swapProofs", ["Quote:meltQuoteResponse.Quote", "Inputs:inputsWithoutDLEQ(proofs)"])] := rfl
 
 /-- `Model.mintTokens` -/
 theorem wlit_PostMintBolt11Request : Gen.wlit_PostMintBolt11Request =
@@ -156,9 +156,19 @@ theorem src_NewBlindedMessage : Gen.src_NewBlindedMessage = [
   "}"
 ] := rfl
 
-/-- the code as it is has no helper that strips the DLEQ from request inputs -/
+/-- the helper of the fix: a fresh slice, `proof` is a loop COPY, only its `DLEQ` is cleared (`Model.inputsWithoutDLEQ`) -/
 theorem src_inputsWithoutDLEQ : Gen.src_inputsWithoutDLEQ = [
-  "<missing>"
+  "func inputsWithoutDLEQ(proofs cashu.Proofs) cashu.Proofs {",
+  "if proofs == nil {",
+  "return nil",
+  "}",
+  "inputs := make(cashu.Proofs, len(proofs))",
+  "for i, proof := range proofs {",
+  "proof.DLEQ = nil",
+  "inputs[i] = proof",
+  "}",
+  "return inputs",
+  "}"
 ] := rfl
 
 /-! ## call skeletons of the operation paths the model mirrors -/
